@@ -163,6 +163,20 @@ Section Proofs.
     rewrite Nn, (open_seal _ _ box), (open_seal _ _ box), C. reflexivity.
   Qed.
 
+  (* two hops: the export of an imported keystore imports, in any further instance, to the same
+     entropy and seed again *)
+  Theorem two_hop p salt cke n1 n2 e ex inn m sd cke' n1' n2' :
+    Unlock.ends_nul p = false ->
+    create_seed H PBKDF2 e p = Bip39.Ok (m, sd) ->
+    exists j', reimport H PBKDF2 kdf seal open_box (persist_entropy kdf seal p salt cke n1 n2 e ex inn) p cke' n1' n2' = Some j' /\
+               import_keystore_seed H PBKDF2 kdf open_box j' p = Some (Bip39.Ok (e, sd)).
+  Proof.
+    intros Nn C. unfold reimport.
+    rewrite (export_import_seed p salt cke n1 n2 e ex inn m sd Nn C).
+    eexists. split; [reflexivity|]. cbn [j_salt persist_entropy].
+    apply (export_import_seed p salt cke' n1' n2' e _ _ m sd Nn C).
+  Qed.
+
   Theorem import_wrong_pass p p' salt cke n1 n2 e ex inn :
     kdf p' salt <> kdf p salt ->
     import_keystore_seed H PBKDF2 kdf open_box (persist_entropy kdf seal p salt cke n1 n2 e ex inn) p' = None.
